@@ -143,7 +143,7 @@ type result struct {
 	Panic    string   `json:"panic,omitempty"`
 }
 
-func parse(text string) (res result) {
+func parse(text string, fill bool) (res result) {
 	defer func() {
 		if e := recover(); e != nil {
 			res = result{Panic: fmt.Sprint(e)}
@@ -156,6 +156,10 @@ func parse(text string) (res result) {
 	lc := &collect{}
 	lexer.AddErrorListener(lc)
 	stream := antlr.NewCommonTokenStream(lexer, antlr.TokenDefaultChannel)
+	if fill {
+		// the entry point under analysis lexes the whole text before it parses
+		stream.Fill()
+	}
 	listener := iparser.NewGengineParserListener(kc)
 	psr := parser.NewgengineParser(stream)
 	psr.BuildParseTrees = true
@@ -178,11 +182,12 @@ func main() {
 		if len(line) > 0 {
 			var req struct {
 				Text string `json:"text"`
+				Fill bool   `json:"fill"`
 			}
 			if e := json.Unmarshal(line, &req); e != nil {
 				fmt.Fprintln(wr, `{"panic":"bad request"}`)
 			} else {
-				out, _ := json.Marshal(parse(req.Text))
+				out, _ := json.Marshal(parse(req.Text, req.Fill))
 				wr.Write(out)
 				wr.WriteByte('\n')
 			}
